@@ -12,6 +12,7 @@ INFO = {
                    "node' = (bit_i == 0) ? H[node, pe_i] : H[pe_i, node] over i in 0..len(bits). A region-confined defect needs an extra "
                    "data-dependent branch or operation, both of which change the DAG / path set. R04-3: the byte order of "
                    "serialize_proof_values, its decoder and the verifier's public-input order are mutually consistent.",
+    "r04_4": "R04-4: the native proving entry points publish exactly serialize_proof_values(proof_values_from_witness(W)) of the witness they prove",
     "not_decided": "equality with positions 1..5 of the circuit witness (needs evaluating the witness graph: numeric)",
     "assumptions": ["poseidon_hash and arkworks Fp +,* are the functions of the specification (C09 covers the hash's parameters and shape)"],
 }
@@ -27,6 +28,16 @@ def run(ctx):
         check_pvfw(ctx, fb, cfg, "rln::protocol::proof_values_from_witness", "rln::protocol::compute_tree_root")
         check_ctr(ctx, fb, cfg, "rln::protocol::compute_tree_root")
         check_orders(ctx, fb, cfg)
+        # R04-4: what the proving entry points PUBLISH is serialize_proof_values(proof_values_from_witness(W)) of the very
+        # witness they prove (rule shared with C01 R01-1)
+        from . import c01
+        from ..main import Ctx as _Ctx
+        sub = _Ctx(ctx.pid, ctx.tier)
+        c01.check_pipeline(sub, fb, cfg, "rln::public::RLN::generate_rln_proof_with_witness", False, True)
+        if cfg != "stateless":
+            c01.check_pipeline(sub, fb, cfg, "rln::public::RLN::generate_rln_proof", True, True)
+        for r in sub.results:
+            (ctx.ok if r.status == "ok" else ctx.fail)("R04-4", r.instance, r.reason, r.loc)
     fx = ctx.fb("fixtures")
     from ..main import Ctx
     for fn, rule, f in [("pvfw_region_branch", "R04-1", check_pvfw), ("pvfw_x_in_nullifier", "R04-1", check_pvfw),
